@@ -116,7 +116,12 @@ func (b *exampleBuilder) buildObjectKey(k internalSchema.ObjectNodeKey) ([]byte,
 	if err != nil {
 		return nil, err
 	}
-	return stdBytes.Trim(ex, `"`), nil
+	// Strip the delimiters of the string literal only: a quote next to them
+	// belongs to an escape sequence ("a\"") and stays in the key.
+	if len(ex) >= 2 && ex[0] == '"' && ex[len(ex)-1] == '"' {
+		ex = ex[1 : len(ex)-1]
+	}
+	return ex, nil
 }
 
 func (b *exampleBuilder) buildExampleForArrayNode(node *internalSchema.ArrayNode) ([]byte, error) {
